@@ -56,10 +56,12 @@ def _aliases(r, bufs):
     return False
 
 
-def reuse_check(fn, args, kwargs=None):
+def reuse_check(fn, args, kwargs=None, fresh_fn=None):
     """Returns ("n/a", None) when the history cannot be driven, ("ok", None) when consistent, or
-    ("stale", detail)."""
+    ("stale", detail).  fresh_fn: the same method bound to a newly built twin object (for methods whose
+    object could itself carry the stale state); default fn."""
     kwargs = kwargs or {}
+    fresh_fn = fresh_fn or fn
     bufs, arrays = [], []
     for a in args:
         if isinstance(a, np.ndarray) and a.ndim >= 1 and a.shape[0] >= 2 and a.dtype.kind in "fiuc":
@@ -88,7 +90,7 @@ def reuse_check(fn, args, kwargs=None):
                 if isinstance(x, np.ndarray) and x.flags.writeable and x.dtype.kind in "fc" and x.size:
                     x *= 3.0
             r3 = _snapshot(fn(*bufs, **kwargs))
-            fresh = _snapshot(fn(*[b.copy(order="K") if isinstance(b, np.ndarray) else b for b in bufs], **kwargs))
+            fresh = _snapshot(fresh_fn(*[b.copy(order="K") if isinstance(b, np.ndarray) else b for b in bufs], **kwargs))
     except Exception:
         return "n/a", None
     if not _same(r1_later, s1) and not _aliases(r1, bufs):
